@@ -1,10 +1,78 @@
-(* Text/CodepageRoundtrip.v — C10 round trip: to_lossy_string (to_lossy_bytes s) = s for every
-   string the encoder handles safely, for all lengths and all orders of codepage switches.
-   The code tables are constrained by three named hypotheses (validated exhaustively on
-   encoding_rs by the harness). *)
+(* Text/CodepageRoundtrip.v — C10 round trip (and the heart of the C12 wire composition):
+   to_lossy_string (to_lossy_bytes s) = s for every string the encoder handles, for all lengths, all
+   orders of codepage switches, WITH carets: escaped carets, colour codes (incl. ^8, which resets the
+   codepage and is kept in the text) and any other caret that does not itself spell a codepage marker.
+   Since the marker scan of the decoder reads left to right (68d499a) neither a double-byte character
+   whose second byte is 0x5E nor an escaped caret before a letter is taken for a marker, so the two
+   former known classes are inside the theorem.
+   The code tables are an oracle constrained by named hypotheses (validated exhaustively on encoding_rs
+   by the harness and the model driver). *)
 Require Import Coq.Strings.String.
 Require Import Base.Bytes Gen.TextTab Text.Escape Text.EscapeProofs Text.Codepage Text.CodepageProofs.
+Require Import Lia.
 Local Open Scope N_scope.
+
+(* table facts about the generated letter set *)
+Definition letters_ok : bool :=
+  forallb is_ascii gen_codepage_letters && negb (is_letter caret) && negb (is_letter qmark) &&
+  forallb is_letter gen_search_order && negb (existsb (N.eqb gen_propagate_letter) gen_search_order) && is_ascii caret &&
+  (* lead bytes are never ASCII, and ^8 has the default codepage's lead bytes *)
+  forallb (fun e => forallb (fun r => 128 <=? fst r) (snd e)) gen_lead_ranges &&
+  match nassoc gen_propagate_letter gen_codepage_tab, nassoc gen_default_codepage gen_codepage_tab with
+  | Some a, Some b => String.eqb a b | _, _ => false end.
+Lemma letters_hold : letters_ok = true. Proof. vm_compute. reflexivity. Qed.
+
+Lemma letter_is_ascii b : is_letter b = true -> is_ascii b = true.
+Proof.
+  intros H. pose proof letters_hold as T. unfold letters_ok in T.
+  do 7 (apply andb_prop in T as [T _]). rewrite forallb_forall in T.
+  unfold is_letter in H. apply existsb_exists in H as [x [Hin Hx]]. apply N.eqb_eq in Hx. subst x. exact (T _ Hin).
+Qed.
+Lemma caret_not_letter : is_letter caret = false.
+Proof. pose proof letters_hold as T. unfold letters_ok in T. do 6 (apply andb_prop in T as [T _]).
+       apply andb_prop in T as [_ T]. apply negb_true_iff in T. exact T. Qed.
+Lemma qmark_not_letter : is_letter qmark = false.
+Proof. pose proof letters_hold as T. unfold letters_ok in T. do 5 (apply andb_prop in T as [T _]).
+       apply andb_prop in T as [_ T]. apply negb_true_iff in T. exact T. Qed.
+Lemma caret_ascii : is_ascii caret = true.
+Proof. pose proof letters_hold as T. unfold letters_ok in T. do 2 (apply andb_prop in T as [T _]).
+       apply andb_prop in T as [_ T]. exact T. Qed.
+Lemma search_order_letters : forallb is_letter gen_search_order = true.
+Proof. pose proof letters_hold as T. unfold letters_ok in T. do 4 (apply andb_prop in T as [T _]).
+       apply andb_prop in T as [_ T]. exact T. Qed.
+Lemma prop_not_searched : existsb (N.eqb gen_propagate_letter) gen_search_order = false.
+Proof. pose proof letters_hold as T. unfold letters_ok in T. do 3 (apply andb_prop in T as [T _]).
+       apply andb_prop in T as [_ T]. apply negb_true_iff in T. exact T. Qed.
+Lemma high_not_letter b : 128 <= b -> is_letter b = false.
+Proof.
+  intros H. destruct (is_letter b) eqn:E; [|reflexivity]. apply letter_is_ascii in E.
+  unfold is_ascii in E. apply N.ltb_lt in E. lia.
+Qed.
+Lemma high_not_caret b : 128 <= b -> is_caret b = false.
+Proof. intros H. unfold is_caret. apply N.eqb_neq. intros ->. vm_compute in H. apply H. reflexivity. Qed.
+
+Lemma lead_ascii l b : is_ascii b = true -> lead l b = false.
+Proof.
+  intros Hb. unfold is_ascii in Hb. apply N.ltb_lt in Hb.
+  pose proof letters_hold as T. unfold letters_ok in T. apply andb_prop in T as [T _]. apply andb_prop in T as [_ T].
+  rewrite forallb_forall in T. unfold lead.
+  destruct (nassoc l gen_codepage_tab) as [nm|]; [|reflexivity].
+  destruct (sassoc nm gen_lead_ranges) as [rs|] eqn:E; [|reflexivity].
+  assert (Hin : In (nm, rs) gen_lead_ranges).
+  { clear -E. induction gen_lead_ranges as [|[k x] r IH]; cbn [sassoc] in E; [discriminate|].
+    destruct (String.eqb nm k) eqn:Ek; [apply String.eqb_eq in Ek; inversion E; subst; left; reflexivity|right; apply IH; exact E]. }
+  specialize (T _ Hin). cbn [snd] in T. rewrite forallb_forall in T.
+  apply Bool.not_true_iff_false. intros H. apply existsb_exists in H as [r [Hr Hb2]].
+  specialize (T _ Hr). apply N.leb_le in T. apply andb_prop in Hb2 as [H1 _]. apply N.leb_le in H1. lia.
+Qed.
+Lemma lead_prop b : lead gen_propagate_letter b = lead gen_default_codepage b.
+Proof.
+  pose proof letters_hold as T. unfold letters_ok in T. apply andb_prop in T as [_ T]. unfold lead.
+  destruct (nassoc gen_propagate_letter gen_codepage_tab) as [a|]; [|discriminate].
+  destruct (nassoc gen_default_codepage gen_codepage_tab) as [b'|]; [|discriminate].
+  apply String.eqb_eq in T. subst. reflexivity.
+Qed.
+
 
 Section RT.
   Variable enc : N -> N -> option (list N).
@@ -18,32 +86,11 @@ Section RT.
   Hypothesis dec_nil : forall l, dec l [] = [].
   Hypothesis dec_ascii_cons : forall l b r, is_ascii b = true -> dec l (b :: r) = b :: dec l r.
   Hypothesis dec_enc_app : forall l c w r, enc l c = Some w -> dec l (w ++ r) = c :: dec l r.
-
-  (* table facts about the generated letter set *)
-  Definition letters_ok : bool :=
-    forallb is_ascii gen_codepage_letters && negb (is_letter caret) && negb (is_letter qmark) &&
-    forallb is_letter gen_search_order && negb (existsb (N.eqb gen_propagate_letter) gen_search_order) && is_ascii caret.
-  Lemma letters_hold : letters_ok = true. Proof. vm_compute. reflexivity. Qed.
-
-  Lemma letter_is_ascii b : is_letter b = true -> is_ascii b = true.
-  Proof.
-    intros H. pose proof letters_hold as T. unfold letters_ok in T.
-    do 5 (apply andb_prop in T as [T _]). rewrite forallb_forall in T.
-    unfold is_letter in H. apply existsb_exists in H as [x [Hin Hx]]. apply N.eqb_eq in Hx. subst x. exact (T _ Hin).
-  Qed.
-  Lemma caret_not_letter : is_letter caret = false.
-  Proof. pose proof letters_hold as T. unfold letters_ok in T. do 4 (apply andb_prop in T as [T _]).
-         apply andb_prop in T as [_ T]. apply negb_true_iff in T. exact T. Qed.
-  Lemma qmark_not_letter : is_letter qmark = false.
-  Proof. pose proof letters_hold as T. unfold letters_ok in T. do 3 (apply andb_prop in T as [T _]).
-         apply andb_prop in T as [_ T]. apply negb_true_iff in T. exact T. Qed.
-  Lemma high_not_letter b : 128 <= b -> is_letter b = false.
-  Proof.
-    intros H. destruct (is_letter b) eqn:E; [|reflexivity]. apply letter_is_ascii in E.
-    unfold is_ascii in E. apply N.ltb_lt in E. lia.
-  Qed.
-  Lemma high_not_caret b : 128 <= b -> is_caret b = false.
-  Proof. intros H. unfold is_caret. apply N.eqb_neq. intros ->. vm_compute in H. apply H. reflexivity. Qed.
+  (* the lead-byte classification of the scanner agrees with the tables *)
+  Hypothesis enc_two_lead : forall l c b1 b2, enc l c = Some [b1; b2] -> lead l b1 = true.
+  Hypothesis enc_one_nolead : forall l c b1, enc l c = Some [b1] -> lead l b1 = false.
+  (* ^8 selects the default codepage's table *)
+  Hypothesis dec_prop : forall bs, dec gen_propagate_letter bs = dec gen_default_codepage bs.
 
   Lemma search_letter cands cur c k w : forallb is_letter cands = true ->
     search enc cands cur c = Some (k, w) -> is_letter k = true /\ enc k c = Some w /\ In k cands.
@@ -57,140 +104,188 @@ Section RT.
       + intros Hs. destruct (IH Ht Hs) as [A [B C]]. repeat split; auto. right. exact C.
   Qed.
 
-  (* ---- the decoder pushes a byte that does not start a marker ---- *)
-  Lemma dls_push cur acc b t :
-    match t with l :: _ => is_caret b && is_letter l = false | [] => True end ->
-    dls cur acc (b :: t) = dls cur (b :: acc) t.
-  Proof. destruct t as [|l t']; cbn [Codepage.dls]; [reflexivity|]. intros ->. reflexivity. Qed.
+  (* ---- decoder's codepage d vs encoder's codepage e: equal, or ^8 vs the default ---- *)
+  Definition R (d e : N) : Prop := d = e \/ (d = gen_propagate_letter /\ e = gen_default_codepage).
+  Lemma dec_R d e bs : R d e -> dec d bs = dec e bs.
+  Proof. intros [->|[-> ->]]; [reflexivity|apply dec_prop]. Qed.
+  Lemma lead_R d e b : R d e -> lead d b = lead e b.
+  Proof. intros [->|[-> ->]]; [reflexivity|apply lead_prop]. Qed.
 
-  (* ---- safety of a string w.r.t. the encoder's own choices ---- *)
-  Definition ends_in_caret (w : list N) : bool := is_caret (last w 0).
-  Definition ok_after (w : list N) (t : list N) : bool :=
-    negb (ends_in_caret w) || match t with d :: _ => negb (is_letter d) | [] => true end.
-  Fixpoint safe (cur : N) (s : list N) : bool :=
+  (* ---- how the decoder consumes what the encoder emits ---- *)
+  Lemma dls_push_plain cur acc b t : is_caret b = false -> lead cur b = false ->
+    dls cur acc (b :: t) = dls cur (b :: acc) t.
+  Proof. intros Hc Hl. destruct t as [|l t']; cbn [Codepage.dls]; [reflexivity|]. rewrite Hc, Hl. reflexivity. Qed.
+
+  Lemma dls_unit d e acc c w rest : R d e -> enc e c = Some w ->
+    dls d acc (w ++ rest) = dls d (rev w ++ acc) rest.
+  Proof.
+    intros HR E. destruct (enc_shape _ _ _ E) as [b1 [Hb [->|[b2 ->]]]]; cbn [app rev].
+    - apply dls_push_plain; [apply high_not_caret; exact Hb|]. rewrite (lead_R _ _ _ HR). eapply enc_one_nolead. exact E.
+    - cbn [Codepage.dls]. rewrite (high_not_caret _ Hb), (lead_R _ _ _ HR), (enc_two_lead _ _ _ _ E). reflexivity.
+  Qed.
+
+  (* invariant: [pre] are pending bytes of codepage cur that decode, followed by anything, to [p] *)
+  Definition pending (cur : N) (pre p : list N) : Prop := forall X, dec cur (pre ++ X) = p ++ dec cur X.
+  Lemma pending_nil cur : pending cur [] [].
+  Proof. intros X. reflexivity. Qed.
+  Lemma pending_ascii cur pre p b : pending cur pre p -> is_ascii b = true -> pending cur (pre ++ [b]) (p ++ [b]).
+  Proof. intros H Hb X. rewrite <- !app_assoc. cbn [app]. rewrite H, dec_ascii_cons by exact Hb. reflexivity. Qed.
+  Lemma pending_unit d e pre p c w : R d e -> pending d pre p -> enc e c = Some w -> pending d (pre ++ w) (p ++ [c]).
+  Proof.
+    intros HR H E X. rewrite <- !app_assoc. cbn [app]. rewrite H. f_equal.
+    rewrite !(dec_R _ _ _ HR). apply dec_enc_app. exact E.
+  Qed.
+  Lemma pending_done cur pre p : pending cur pre p -> dec cur pre = p.
+  Proof. intros H. specialize (H []). rewrite !app_nil_r, dec_nil, app_nil_r in H. exact H. Qed.
+
+  (* ---- the strings the encoder handles: every non-ASCII character is found in some codepage, a caret
+          that is not the second half of an escaped caret is not followed by a codepage letter other than
+          the one kept in the text (^8), nor by a character that needs a codepage switch ---- *)
+  Fixpoint safe (cur : N) (after : bool) (s : list N) : bool :=
     match s with
     | [] => true
     | c :: t =>
-        if is_ascii c then negb (is_caret c) && safe cur t
+        if is_ascii c then
+          (if after && is_letter c then c =? gen_propagate_letter else true) &&
+          safe (if after && is_letter c then follow c else cur) (negb after && is_caret c) t
         else match enc cur c with
-             | Some w => ok_after w t && safe cur t
+             | Some _ => safe cur false t
              | None => match search enc gen_search_order cur c with
-                       | Some (k, w) => ok_after w t && safe k t
+                       | Some (k, _) => negb after && safe k false t
                        | None => false
                        end
              end
     end.
 
-  (* first byte of what the encoder emits next *)
-  Lemma hd_enc_from_letter cur after t l r : enc_from cur after t = l :: r -> is_letter l = true ->
-    exists d t', t = d :: t' /\ d = l.
+  Lemma enc_from_nonascii_after cur c t : is_ascii c = false ->
+    enc_from cur true (c :: t) = enc_from cur false (c :: t).
+  Proof. intros H. cbn [Codepage.enc_from]. rewrite H. reflexivity. Qed.
+
+  Theorem dls_enc_from : forall n s e d pre p, (length s <= n)%nat ->
+    R d e -> safe e false s = true -> pending d pre p ->
+    dls d (rev pre) (enc_from e false s) = p ++ s.
   Proof.
-    destruct t as [|d t']; cbn [Codepage.enc_from]; [discriminate|].
-    destruct (is_ascii d) eqn:Ha.
-    - intros [= <- _] _. eauto.
-    - destruct (enc cur d) as [w|] eqn:E.
-      + destruct (enc_shape _ _ _ E) as [b1 [Hb [->|[b2 ->]]]]; cbn [app]; intros [= <- _] Hl;
-          rewrite (high_not_letter _ Hb) in Hl; discriminate.
-      + destruct (search enc gen_search_order cur d) as [[k w]|].
-        * intros [= <- _] Hl. rewrite caret_not_letter in Hl. discriminate.
-        * intros [= <- _] Hl. rewrite qmark_not_letter in Hl. discriminate.
-  Qed.
-
-  (* a unit w (the encoding of one character) is pushed whole *)
-  Lemma dls_unit cur acc l c w t cur' :
-    enc l c = Some w -> ok_after w t = true ->
-    dls cur acc (w ++ enc_from cur' false t) = dls cur (rev w ++ acc) (enc_from cur' false t).
-  Proof.
-    intros E Hok. destruct (enc_shape _ _ _ E) as [b1 [Hb [->|[b2 ->]]]]; cbn [app rev].
-    - apply dls_push. destruct (enc_from cur' false t); [exact I|]. rewrite (high_not_caret _ Hb). reflexivity.
-    - rewrite dls_push by (rewrite (high_not_caret _ Hb); reflexivity).
-      apply dls_push. destruct (enc_from cur' false t) as [|x r] eqn:Ee; [exact I|].
-      unfold ok_after, ends_in_caret in Hok. cbn [last] in Hok.
-      destruct (is_caret b2) eqn:Hc; [|reflexivity]. cbn [negb orb] in Hok. cbn [andb].
-      destruct (is_letter x) eqn:Hl; [|reflexivity]. exfalso.
-      destruct (hd_enc_from_letter _ _ _ _ _ Ee Hl) as [d [t' [-> ->]]]. rewrite Hl in Hok. discriminate.
-  Qed.
-
-  (* invariant: [pre] are pending bytes of codepage cur that decode, followed by anything, to [p] *)
-  Definition pending (cur : N) (pre p : list N) : Prop := forall X, dec cur (pre ++ X) = p ++ dec cur X.
-
-  Lemma pending_nil cur : pending cur [] [].
-  Proof. intros X. reflexivity. Qed.
-  Lemma pending_ascii cur pre p b : pending cur pre p -> is_ascii b = true -> pending cur (pre ++ [b]) (p ++ [b]).
-  Proof. intros H Hb X. rewrite <- !app_assoc. cbn [app]. rewrite H, dec_ascii_cons by exact Hb. reflexivity. Qed.
-  Lemma pending_unit cur pre p c w : pending cur pre p -> enc cur c = Some w -> pending cur (pre ++ w) (p ++ [c]).
-  Proof. intros H E X. rewrite <- !app_assoc. cbn [app]. rewrite H, (dec_enc_app _ _ _ _ E). reflexivity. Qed.
-
-  Theorem dls_enc_from : forall s cur pre p,
-    safe cur s = true -> pending cur pre p ->
-    dls cur (rev pre) (enc_from cur false s) = p ++ s.
-  Proof.
-    pose proof letters_hold as T. unfold letters_ok in T.
-    apply andb_prop in T as [T _]. apply andb_prop in T as [T Tprop]. apply andb_prop in T as [T Tso]. clear T.
-    induction s as [|c t IH]; intros cur pre p Hs Hp; cbn [Codepage.enc_from].
-    - cbn [Codepage.dls]. rewrite rev_involutive. specialize (Hp []). rewrite app_nil_r, dec_nil in Hp. exact Hp.
-    - cbn [safe] in Hs. destruct (is_ascii c) eqn:Ha.
-      + apply andb_prop in Hs as [Hnc Hs]. apply negb_true_iff in Hnc. cbn [andb]. rewrite Hnc.
-        rewrite dls_push by (destruct (enc_from cur false t); [exact I|rewrite Hnc; reflexivity]).
+    induction n as [|n IH]; intros s e d pre p Hlen HR Hs Hp.
+    { destruct s; [|cbn in Hlen; lia]. cbn [Codepage.enc_from Codepage.dls]. rewrite rev_involutive, app_nil_r.
+      apply pending_done. exact Hp. }
+    destruct s as [|c t].
+    { cbn [Codepage.enc_from Codepage.dls]. rewrite rev_involutive, app_nil_r. apply pending_done. exact Hp. }
+    cbn [length] in Hlen. cbn [safe] in Hs. cbn [Codepage.enc_from].
+    destruct (is_ascii c) eqn:Ha.
+    - (* ASCII *)
+      cbn [andb negb] in Hs |- *. destruct (is_caret c) eqn:Hc.
+      + (* a caret: look at what follows in the source *)
+        apply N.eqb_eq in Hc. subst c.
+        destruct t as [|dch t'].
+        * (* last character *)
+          cbn [Codepage.enc_from Codepage.dls]. cbn [rev]. rewrite rev_involutive.
+          rewrite (pending_done _ _ _ (pending_ascii _ _ _ _ Hp caret_ascii)). reflexivity.
+        * cbn [safe] in Hs. cbn [Codepage.enc_from].
+          destruct (is_ascii dch) eqn:Had.
+          -- cbn [andb] in Hs |- *. destruct (is_letter dch) eqn:Hld.
+             ++ (* ^ + codepage letter: only ^8, which both sides treat as a marker that stays in the text *)
+                apply andb_prop in Hs as [Hp8 Hs]. apply N.eqb_eq in Hp8. subst dch.
+                assert (Hnc : is_caret gen_propagate_letter = false).
+                { destruct (is_caret gen_propagate_letter) eqn:E; [|reflexivity]. apply N.eqb_eq in E.
+                  rewrite E in Hld. rewrite caret_not_letter in Hld. discriminate. }
+                rewrite Hnc in Hs |- *. cbn [negb andb] in Hs |- *.
+                rewrite (dls_cons2 dec). replace (is_caret caret) with true by (symmetry; apply N.eqb_refl).
+                rewrite Hld, N.eqb_refl. rewrite rev_involutive, (pending_done _ _ _ Hp).
+                unfold follow in Hs |- *. rewrite N.eqb_refl in Hs |- *.
+                assert (Hi : dls gen_propagate_letter (rev []) (enc_from gen_default_codepage false t') = [] ++ t').
+                { apply (IH t' gen_default_codepage gen_propagate_letter [] []); [cbn [length] in Hlen; lia|right; split; reflexivity|exact Hs|apply pending_nil]. }
+                cbn [rev app] in Hi. rewrite Hi. reflexivity.
+             ++ destruct (is_caret dch) eqn:Hcd.
+                ** (* escaped caret ^^: a pair for both *)
+                   apply N.eqb_eq in Hcd. subst dch. cbn [negb andb] in Hs |- *.
+                   rewrite (dls_cons2 dec). replace (is_caret caret) with true by (symmetry; apply N.eqb_refl).
+                   rewrite caret_not_letter.
+                   replace (caret :: caret :: rev pre) with (rev ((pre ++ [caret]) ++ [caret])) by (rewrite !rev_app_distr; reflexivity).
+                   rewrite (IH t' e d ((pre ++ [caret]) ++ [caret]) ((p ++ [caret]) ++ [caret])); [|cbn [length] in Hlen; lia|exact HR|exact Hs|].
+                   { rewrite <- !app_assoc. reflexivity. }
+                   apply pending_ascii; [apply pending_ascii; [exact Hp|apply caret_ascii]|apply caret_ascii].
+                ** (* ^ + another ASCII character: the caret is pushed, the character is handled next *)
+                   cbn [negb andb] in Hs |- *.
+                   rewrite (dls_cons2 dec). replace (is_caret caret) with true by (symmetry; apply N.eqb_refl).
+                   rewrite Hld, Hcd.
+                   replace (caret :: rev pre) with (rev (pre ++ [caret])) by (rewrite rev_app_distr; reflexivity).
+                   assert (E1 : dch :: enc_from e false t' = enc_from e false (dch :: t')).
+                   { cbn [Codepage.enc_from]. rewrite Had, Hcd. reflexivity. }
+                   rewrite E1.
+                   rewrite (IH (dch :: t') e d (pre ++ [caret]) (p ++ [caret])); [|cbn [length] in Hlen |- *; lia|exact HR| |apply pending_ascii; [exact Hp|apply caret_ascii]].
+                   { rewrite <- app_assoc. reflexivity. }
+                   cbn [safe]. rewrite Had, Hcd. cbn [andb negb]. exact Hs.
+          -- (* ^ + a non-ASCII character: it must be encodable without a switch *)
+             destruct (enc e dch) as [w|] eqn:Ee.
+             ++ destruct (enc_shape _ _ _ Ee) as [b1 [Hb Hw]].
+                assert (Hfirst : exists r, w ++ enc_from e false t' = b1 :: r).
+                { destruct Hw as [->|[b2 ->]]; eexists; reflexivity. }
+                destruct Hfirst as [r Hr]. rewrite Hr. rewrite (dls_cons2 dec).
+                replace (is_caret caret) with true by (symmetry; apply N.eqb_refl).
+                rewrite (high_not_letter _ Hb), (high_not_caret _ Hb). rewrite <- Hr.
+                replace (caret :: rev pre) with (rev (pre ++ [caret])) by (rewrite rev_app_distr; reflexivity).
+                assert (E1 : w ++ enc_from e false t' = enc_from e false (dch :: t')).
+                { cbn [Codepage.enc_from]. rewrite Had, Ee. reflexivity. }
+                rewrite E1.
+                rewrite (IH (dch :: t') e d (pre ++ [caret]) (p ++ [caret])); [|cbn [length] in Hlen |- *; lia|exact HR| |apply pending_ascii; [exact Hp|apply caret_ascii]].
+                { rewrite <- app_assoc. reflexivity. }
+                cbn [safe]. rewrite Had, Ee. exact Hs.
+             ++ destruct (search enc gen_search_order e dch) as [[k w]|]; [|discriminate]. cbn [negb andb] in Hs. discriminate.
+      + (* plain ASCII *)
+        cbn [negb andb] in Hs |- *.
+        rewrite dls_push_plain by (try exact Hc; apply lead_ascii; exact Ha).
         replace (c :: rev pre) with (rev (pre ++ [c])) by (rewrite rev_app_distr; reflexivity).
-        rewrite (IH cur (pre ++ [c]) (p ++ [c]) Hs (pending_ascii _ _ _ _ Hp Ha)).
+        rewrite (IH t e d (pre ++ [c]) (p ++ [c])); [|lia|exact HR|exact Hs|apply pending_ascii; assumption].
         rewrite <- app_assoc. reflexivity.
-      + destruct (enc cur c) as [w|] eqn:E.
-        * apply andb_prop in Hs as [Hok Hs].
-          rewrite (dls_unit cur (rev pre) cur c w t cur E Hok).
-          replace (rev w ++ rev pre) with (rev (pre ++ w)) by (rewrite rev_app_distr; reflexivity).
-          rewrite (IH cur (pre ++ w) (p ++ [c]) Hs (pending_unit _ _ _ _ _ Hp E)).
-          rewrite <- app_assoc. reflexivity.
-        * destruct (search enc gen_search_order cur c) as [[k w]|] eqn:Es; [|discriminate].
-          apply andb_prop in Hs as [Hok Hs].
-          destruct (search_letter _ _ _ _ _ Tso Es) as [Hk [Ek Hin]].
-          (* the encoder's own marker *)
-          cbn [Codepage.dls]. destruct (w ++ enc_from k false t) as [|x r] eqn:Ew.
-          { destruct (enc_shape _ _ _ Ek) as [b1 [_ [->|[b2 ->]]]]; discriminate. }
-          replace (is_caret caret) with true by (symmetry; apply N.eqb_refl). rewrite Hk. cbn [andb].
-          assert (k =? gen_propagate_letter = false) as Hnp.
-          { apply N.eqb_neq. intros ->. apply negb_true_iff in Tprop.
-            assert (existsb (N.eqb gen_propagate_letter) gen_search_order = true) by
-              (apply existsb_exists; exists gen_propagate_letter; split; [exact Hin|apply N.eqb_refl]).
-            congruence. }
-          rewrite Hnp. cbn [app]. rewrite rev_involutive.
-          specialize (Hp []) as Hp0. rewrite app_nil_r, dec_nil, app_nil_r in Hp0. rewrite Hp0.
-          rewrite <- Ew. rewrite (dls_unit k [] k c w t k Ek Hok). rewrite app_nil_r.
-          replace (rev w) with (rev ([] ++ w)) by reflexivity.
-          rewrite (IH k ([] ++ w) ([] ++ [c]) Hs (pending_unit _ _ _ _ _ (pending_nil k) Ek)).
-          reflexivity.
+    - (* non-ASCII *)
+      destruct (enc e c) as [w|] eqn:E.
+      + rewrite (dls_unit d e (rev pre) c w _ HR E).
+        replace (rev w ++ rev pre) with (rev (pre ++ w)) by (rewrite rev_app_distr; reflexivity).
+        rewrite (IH t e d (pre ++ w) (p ++ [c])); [|lia|exact HR|exact Hs|eapply pending_unit; eassumption].
+        rewrite <- app_assoc. reflexivity.
+      + destruct (search enc gen_search_order e c) as [[k w]|] eqn:Es; [|discriminate].
+        cbn [negb andb] in Hs.
+        destruct (search_letter _ _ _ _ _ search_order_letters Es) as [Hk [Ek Hin]].
+        (* the encoder's own marker *)
+        rewrite (dls_cons2 dec).
+        replace (is_caret caret) with true by (symmetry; apply N.eqb_refl). rewrite Hk.
+        assert (k =? gen_propagate_letter = false) as Hnp.
+        { apply N.eqb_neq. intros ->. pose proof prop_not_searched as Tp.
+          assert (existsb (N.eqb gen_propagate_letter) gen_search_order = true) by
+            (apply existsb_exists; exists gen_propagate_letter; split; [exact Hin|apply N.eqb_refl]).
+          congruence. }
+        rewrite Hnp. cbn [app]. rewrite rev_involutive, (pending_done _ _ _ Hp).
+        rewrite (dls_unit k k [] c w _ (or_introl eq_refl) Ek). rewrite app_nil_r.
+        replace (rev w) with (rev ([] ++ w)) by reflexivity.
+        rewrite (IH t k k ([] ++ w) ([] ++ [c])); [|lia|left; reflexivity|exact Hs|eapply pending_unit; [left; reflexivity|apply pending_nil|exact Ek]].
+        reflexivity.
   Qed.
 
-  (* C10: text whose characters exist in some codepage, without caret, and without a
-     trail-byte-0x5E character directly before a marker letter, survives the round trip *)
-  Theorem roundtrip s : safe gen_default_codepage s = true ->
+  (* C10 *)
+  Theorem roundtrip s : safe gen_default_codepage false s = true ->
     to_lossy_string dec (to_lossy_bytes enc s) = s.
   Proof.
     intros Hs. rewrite to_lossy_bytes_is_enc_from. unfold to_lossy_string.
-    pose proof (dls_enc_from s gen_default_codepage [] [] Hs (pending_nil _)) as H. cbn [rev app] in H.
+    pose proof (dls_enc_from (length s) s gen_default_codepage gen_default_codepage [] [] (le_n _) (or_introl eq_refl) Hs (pending_nil _)) as H.
+    cbn [rev app] in H.
     destruct (enc_from gen_default_codepage false s) eqn:E; [|exact H].
     cbn [Codepage.dls rev] in H. rewrite dec_nil in H. exact H.
   Qed.
 
-  (* a simple sufficient condition for [safe]: no caret, every non-ASCII character encodable
-     somewhere, and no character of the string has an encoding ending in 0x5E *)
-  Definition no_5e_trail (c : N) : Prop := forall l w, enc l c = Some w -> ends_in_caret w = false.
+  (* a simple sufficient condition: no caret at all, every non-ASCII character encodable somewhere
+     (no condition on trail bytes any more) *)
   Definition encodable (c : N) : Prop := is_ascii c = true \/ forall cur, enc cur c <> None \/ search enc gen_search_order cur c <> None.
 
-  Theorem safe_sufficient s : forall cur,
-    Forall (fun c => is_caret c = false /\ encodable c /\ no_5e_trail c) s -> safe cur s = true.
+  Theorem safe_caret_free s : forall cur,
+    Forall (fun c => is_caret c = false /\ encodable c) s -> safe cur false s = true.
   Proof.
-    pose proof letters_hold as T. unfold letters_ok in T.
-    apply andb_prop in T as [T _]. apply andb_prop in T as [T _]. apply andb_prop in T as [_ Tso].
     induction s as [|c t IH]; intros cur Hall; [reflexivity|].
-    inversion Hall as [|? ? [Hnc [Henc Hno]] Ht]; subst. cbn [safe].
+    inversion Hall as [|? ? [Hnc Henc] Ht]; subst. cbn [safe].
     destruct (is_ascii c) eqn:Ha; [rewrite Hnc; cbn [negb andb]; apply IH; exact Ht|].
     destruct Henc as [Habs|Henc]; [congruence|].
-    destruct (enc cur c) as [w|] eqn:E.
-    - unfold ok_after. rewrite (Hno _ _ E). cbn [negb orb andb]. apply IH. exact Ht.
-    - destruct (Henc cur) as [H|H]; [congruence|].
-      destruct (search enc gen_search_order cur c) as [[k w]|] eqn:Es; [|congruence].
-      destruct (search_letter _ _ _ _ _ Tso Es) as [_ [Ek _]].
-      unfold ok_after. rewrite (Hno _ _ Ek). cbn [negb orb andb]. apply IH. exact Ht.
+    destruct (enc cur c) as [w|] eqn:E; [apply IH; exact Ht|].
+    destruct (Henc cur) as [H|H]; [congruence|].
+    destruct (search enc gen_search_order cur c) as [[k w]|] eqn:Es; [|congruence].
+    cbn [negb andb]. apply IH. exact Ht.
   Qed.
 End RT.
